@@ -420,11 +420,17 @@ class Spec:
                     msg = f"Cannot inherit from non-existent directive {inheritable.inherit}"
                     raise ValueError(msg)
 
+                # Note: dataclasses.asdict() would recursively turn nested dataclasses
+                # (DirectiveOption, LinkRoleType, ...) into plain dicts.
+                own_values = (
+                    (f.name, getattr(inheritable, f.name))
+                    for f in dataclasses.fields(inheritable)
+                )
                 inheritable = dataclasses.replace(
                     base,
                     **{
                         k: v
-                        for k, v in dataclasses.asdict(inheritable).items()
+                        for k, v in own_values
                         if v is not None
                         and not isinstance(v, (MissingDict, MissingList))
                     },
